@@ -3,6 +3,7 @@ registered as in production, plus a probe application at receive-chain order
 29 and a ``simcl`` convergence-layer adaptor, both through the public
 registries) joined by simulated datagram links. DESIGN 4/E5.
 '''
+import os
 import random
 import re
 
@@ -73,6 +74,24 @@ def patch_bp():
     bp.app.bpsec.datetime = boot.DATETIME
     bp.app.sand.datetime = boot.DATETIME
     bp.app.sand.socket = boot.SOCKET
+    # entropy seam: initialization vectors the security code draws itself come from the seeded generator of the run
+    bp.app.bpsec.os = OS_FACADE
+
+
+class _OsFacade:
+    ''' ``os`` as the security application sees it: ``urandom`` is deterministic (re-seeded per run), the rest is the real module. '''
+
+    def __init__(self):
+        self.rng = random.Random(0)
+
+    def urandom(self, size):
+        return bytes(self.rng.getrandbits(8) for _ in range(size))
+
+    def __getattr__(self, name):
+        return getattr(os, name)
+
+
+OS_FACADE = _OsFacade()
 
 
 class FakeDaemonBus(dbusmod.SimBus):
@@ -92,6 +111,7 @@ class BpHarness:
         self.wld.verbose = verbose
         set_world(self.wld)
         random.seed(sched.pick('global-random', 1 << 30))
+        OS_FACADE.rng = random.Random(sched.pick('entropy', 1 << 30))
         self.net = Net(self.wld, plan.get('net'))
         self.bus = {}
         self.agent = {}
